@@ -14,3 +14,4 @@ import ThriftVerif.Props.C20
 #print axioms Props.C20.cmdline_value_keeps_equals
 #print axioms Props.C20.nested_forces_slim
 #print axioms Props.C20.cmdline_sets_exactly_own
+#print axioms Props.C20.cmdline_outcome_is_handle
